@@ -37,7 +37,7 @@ ASSUMPTIONS = [
     "revision-5/6 passwords are limited to strings on which SASLprep reduces to NFKC; R<=4 *correct* passwords are Latin-1",
     "V4 files use the same crypt filter for strings and streams (the library reports others as unsupported, a documented outcome)",
 ]
-PROBES = ["V1R2 RC4-40", "V2R3 RC4", "V4R4 V2", "V4R4 AESV2", "V4R4 Identity", "V5R5 AESV3", "V5R6 AESV3", "owner password differs", "empty user password", "non-ASCII password", "long password", "no ID", "EncryptMetadata false", "object stream", "generation > 0", "string inside stream dictionary", "eviction happened", "wrong password non-Latin-1"]
+PROBES = ["V1R2 RC4-40", "V2R3 RC4", "V4R4 V2", "V4R4 AESV2", "V4R4 Identity", "V5R5 AESV3", "V5R6 AESV3", "owner password differs", "empty user password", "non-ASCII password", "long password", "no ID", "EncryptMetadata false", "object stream", "generation > 0", "object number above 65535", "string inside stream dictionary", "eviction happened", "wrong password non-Latin-1"]
 TIERS = {
     "quick": {"batches": 16, "runs": 400, "budget_s": 50},
     "thorough": {"batches": 128, "runs": 500, "budget_s": 1200},
@@ -122,6 +122,11 @@ def build_plain(t, ctx):
             gens[n] = t.pick([1, 2, 65535], "obj.genv")
             ctx.probe("generation > 0")
         n += 1
+    if t.coin(25, 100, "obj.high"):
+        # object numbers beyond 16 and 24 bits (the per-object key uses the low three bytes of the number)
+        for hi in t.pick([[70000], [16777215, 16777216 + 9], [65536, 16777300]], "obj.highnums"):
+            objects[hi] = Str(gen_bytes(t, "highstr")) if t.coin(50) else {b"S": Str(gen_bytes(t, "highstr2"))}
+        ctx.probe("object number above 65535")
     return objects, gens
 
 
